@@ -69,7 +69,7 @@ CHECKS = {
          "Trusted: Go race detector (executed schedules only), atomic stamping, AgentCore, TLC. A history TLC cannot decide within its time budget is inconclusive."),
  "C10": (True, "DESIGN.md §4 C10",
          'gate-level TLA+ model of the client (Client.tla: callers, reader, collector, closer, environment; pooled transaction objects with identity) model-checked exhaustively; the complete transition cover of three configurations replayed on a real Client through a delegating agent, scripted connection, virtual clock and scripted collector (one goroutine released per model action); the recorded event log judged by a TLA+ requirement monitor (ClientTrace.tla)',
-         'Exactly-once completion: handler invocations <= 1 always, none after a Start error, exactly one (response / timeout / write error / closed) for every successful Start once Close has returned - checked by TLC on the design for all interleavings of one and two transactions and by the monitor on every replayed schedule, incl. failing writes, duplicate responses and Close at every point.',
+         'Exactly-once completion: handler invocations <= 1 always, none after a Start error, exactly one (response / timeout / write error / closed) for every successful Start once Close has returned - checked by TLC on the design for all interleavings of one and two transactions and by the monitor on every replayed schedule, incl. failing writes, duplicate responses and Close at every point. Client.Do is a model action of its own (the caller waits in D_wait until its handler has finished; DoWaits, DoNotStuck): every replayed Do must stay blocked until the handler returned and come back afterwards; a panic inside a library goroutine is an event of the schedule it happened in (library-panic).',
          'Trusted: Client.tla as a gate-level transcription of client.go (conformance is checked: every replayed step must end at the gate the model predicts, drift = 0 on the unchanged tree); the gate controller (one runnable goroutine at a time); TLC. Known findings K2/K3/K4 are matched by narrow window signatures (known_findings.json). Two concurrent ids are model-checked; replay covers one id exhaustively.'),
  "C11": (True, "DESIGN.md §4 C11",
          'gate-level TLA+ model of the client (Client.tla: callers, reader, collector, closer, environment; pooled transaction objects with identity) model-checked exhaustively; the complete transition cover of three configurations replayed on a real Client through a delegating agent, scripted connection, virtual clock and scripted collector (one goroutine released per model action); the recorded event log judged by a TLA+ requirement monitor (ClientTrace.tla)',
@@ -77,7 +77,7 @@ CHECKS = {
          'Trusted: Client.tla as a gate-level transcription of client.go (conformance is checked: every replayed step must end at the gate the model predicts, drift = 0 on the unchanged tree); the gate controller (one runnable goroutine at a time); TLC. Known findings K2/K3/K4 are matched by narrow window signatures (known_findings.json). Two concurrent ids are model-checked; replay covers one id exhaustively.'),
  "C12": (True, "DESIGN.md §4 C12",
          'gate-level TLA+ model of the client (Client.tla: callers, reader, collector, closer, environment; pooled transaction objects with identity) model-checked exhaustively; the complete transition cover of three configurations replayed on a real Client through a delegating agent, scripted connection, virtual clock and scripted collector (one goroutine released per model action); the recorded event log judged by a TLA+ requirement monitor (ClientTrace.tla)',
-         'Routing: a handler only ever sees events of its own transaction id and exactly the received datagram (sizes up to the 1024-byte read buffer); a decodable datagram the reader consumed reaches its transaction or the fallback handler; responses never go to the fallback handler while their transaction is in flight (outside the known window K3).',
+         'Routing: a handler only ever sees events of its own transaction id and exactly the received datagram (sizes up to the 1024-byte read buffer); a decodable datagram the reader consumed reaches its transaction or the fallback handler; responses never go to the fallback handler while their transaction is in flight (outside the known window K3, which in the gated replay ends exactly where the retransmission path has re-registered the transaction); the reader goroutine survives every datagram (undecodable, shorter than a header, empty) until Close.',
          'Trusted: Client.tla as a gate-level transcription of client.go (conformance is checked: every replayed step must end at the gate the model predicts, drift = 0 on the unchanged tree); the gate controller (one runnable goroutine at a time); TLC. Known findings K2/K3/K4 are matched by narrow window signatures (known_findings.json). Two concurrent ids are model-checked; replay covers one id exhaustively.'),
  "C15": (True, "DESIGN.md §4 C15",
          'gate-level TLA+ model of the client (Client.tla: callers, reader, collector, closer, environment; pooled transaction objects with identity) model-checked exhaustively; the complete transition cover of three configurations replayed on a real Client through a delegating agent, scripted connection, virtual clock and scripted collector (one goroutine released per model action); the recorded event log judged by a TLA+ requirement monitor (ClientTrace.tla)',
@@ -117,9 +117,9 @@ def main():
         "setup_cmd": "bin/setup",
         "hooks": {
             "guard": "verif",
-            "enable": "go test -c -vet=off -tags verif -overlay <generated> (harness files in /verif/harness are injected as external test packages; no source hooks in /repo)",
+            "enable": "go test -c -vet=off -tags verif -overlay <generated> (harness files in /verif/harness are injected as external test packages; one source hook in /repo: Client.start calls verifGate(c, \"client.start\"), defined in verif_hook.go under //go:build verif and as an empty function in verif_nohook.go otherwise)",
             "baseline_off_cmd": "cd /repo && go test -json -vet=off -count=1 -timeout 25m ./...",
-            "source_commits": [],
+            "source_commits": ["020e76f6a90f075e5ad852f7db7110eef29c6f68"],
             "add_only": True,
         },
         "engines": [
